@@ -42,6 +42,9 @@ pub struct Annot<'a, S: Clone + Bits> {
     unit: f64,
     /// C04's precondition (start and every goal sample inside the bounds) holds for this run
     pub c04_precondition: bool,
+    /// when the problem table is (problem definition x checker): number of checkers; entry index =
+    /// pd * nvc + vc, and `set_problem_definition` replaces the pd part only
+    pub nvc: Option<usize>,
 }
 
 fn dense_ranks(vals: &[f64]) -> Vec<i64> {
@@ -135,6 +138,7 @@ impl<'a, S: Clone + Bits> Annot<'a, S> {
             pd: None,
             unit,
             c04_precondition: true,
+            nvc: None,
         }
     }
 
@@ -399,7 +403,10 @@ impl<'a, S: Clone + Bits> Annot<'a, S> {
         match (&rec.call, self.kind) {
             (Call::Setup(i), _) => self.setup(rec, *i, problems),
             (Call::SetPd(i), _) => {
-                self.pd = Some(*i);
+                self.pd = Some(match (self.nvc, self.pd) {
+                    (Some(n), Some(cur)) => (*i / n) * n + cur % n,
+                    _ => *i,
+                });
                 let (k, site, _) = Self::outcome_kind(&rec.outcome);
                 self.out.push(json!({"ev": "setpd", "pd": i + 1, "kind": k, "site": site}));
             }
@@ -443,12 +450,30 @@ impl<'a, S: Clone + Bits> Annot<'a, S> {
                 _ => {}
             }
         }
+        // a roadmap that survives setup must be right for the problem and checker just installed: a
+        // milestone the new checker rejects or the new bounds exclude, or a link the new checker certainly
+        // blocks, makes every later answer a stale one
+        let mut stale = false;
+        if let Snapshot::Roadmap(r) = &rec.snap {
+            for (s, es) in r {
+                if !self.g.valid(s) || !self.g.in_bounds(s) {
+                    stale = true;
+                }
+                for e in es {
+                    if let Some((o, _)) = r.get(*e) {
+                        if self.g.oracle(s, o) == BLOCKED {
+                            stale = true;
+                        }
+                    }
+                }
+            }
+        }
         let (k, site, msg) = Self::outcome_kind(&rec.outcome);
         let snap = self.snapshot_json(&rec.snap);
         let meqv = if !draws_seen || self.mirror.is_none() { 2 } else if meq { 1 } else { 0 };
         let (hl, hm, hr) = (self.u(self.g.lvs()), self.u(self.params.maxd), self.u(self.params.radius));
         self.out.push(json!({"ev": "setup", "pd": i + 1, "kind": k, "site": site, "msg": msg, "roots": roots,
-                             "meq": meqv, "snap": snap, "lvs": hl, "maxd": hm, "rad": hr}));
+                             "meq": meqv, "snap": snap, "lvs": hl, "maxd": hm, "rad": hr, "stale": stale}));
     }
 
     fn tree_solve(&mut self, rec: &CallRec<S>, t: u64, problems: &[ProblemInfo<S>]) {
